@@ -2,7 +2,7 @@
 # Runs every quick check of MANIFEST.json in /verif against /repo (writes /verif/evidence/<id>.json) and prints one line per check.
 cd /verif
 mkdir -p /tmp/allquick
-for c in ${@:-c01 c02 c03 c04 c05 c06 c07 c09 c10 c11 c12 c13 c14 c15 c16 c17 c18 c19}; do
+for c in ${@:-c01 c02 c03 c04 c05 c06 c07 c08 c09 c10 c11 c12 c13 c14 c15 c16 c17 c18 c19}; do
   START=$(date +%s)
   /venv/bin/python checks/$c.py --tier quick > /tmp/allquick/$c.log 2>&1
   RC=$?
